@@ -77,8 +77,11 @@ func ToCatalog(rows []any, ident string, identRight string, joinExpr sqlparser.E
 			if err != nil {
 				return nil, err
 			}
-			buffer.WriteString(fmt.Sprintf("%v", reader))
-			buffer.WriteString("-")
+			// every component is written with its length in front: the key columns
+			// ("a-", "") and ("a", "-") must not produce the same bytes
+			text := fmt.Sprintf("%v", reader)
+			buffer.WriteString(fmt.Sprintf("%d:", len(text)))
+			buffer.WriteString(text)
 			mapper[mappedColumns[column]] = reader
 		}
 		hash, err := ToHash(buffer.Bytes())
